@@ -30,6 +30,9 @@
                                                                        deadline_exact, deadline_is_spec
    Thread::join returns the function's result after it has finished    join_returns_result_after_finish,           [P]
                                                                        thread_result
+   ... also when a start() failed before (pthread_create EAGAIN;       failed_start_changes_nothing,               [L]
+     round 6: script op ThStartF): the object stays unstarted, the     start_after_failed_start_succeeds,
+     retry succeeds, a handle exists only for a created thread         handle_only_for_created_thread
    GRANULARITY of the model (not a clause of the property; round 4)    fine_signal_accesses_under_mutex,           [G]
      one move = one primitive call + the thread-local code after it    fine_monitor_accesses_under_mutex,
      is no restriction: the fine machine (SyncFine.v) makes every      fine_access_exclusive, fine_flag_stable,
@@ -287,6 +290,17 @@ Theorem start_after_failed_start_succeeds : forall w t c rest,
   trace w' = EvRet t (ThStart c) 1 :: EvRet t (ThStartF c) 0 :: trace w.
 Proof. exact start_after_failed_start_succeeds_l. Qed.
 Print Assumptions start_after_failed_start_succeeds.
+
+(* the handle stored in a Thread object is non-null only if pthread_create SUCCEEDED for it: in every reachable state - any
+   scripts (incl. failing starts), any schedule - a Thread object with a handle has a child that was created (running, blocked
+   or finished), never a thread that does not exist; join therefore never waits for / reads the result of a thread function
+   that never ran.  (A start() that let pthread_create write into the member and kept what a FAILED create left there breaks
+   exactly this: seeded/C11-v2.) *)
+Theorem handle_only_for_created_thread : forall scripts results started s0 v0 sched c,
+  let w := reach scripts results started s0 v0 sched in
+  handle w c = true -> st (ps w) c <> TNotStarted.
+Proof. exact handle_only_for_created_thread_l. Qed.
+Print Assumptions handle_only_for_created_thread.
 
 (* ---------------- granularity: the fine machine (SyncFine.v) ---------------- *)
 (* a thread standing in front of an access to Signal::signaled owns the Signal's mutex and is running - any scripts *)
